@@ -68,12 +68,19 @@ pub mod verif_env {
         pub const SITE: u32 = 5;
         macro_rules! vatomic {
             ($name:ident, $t:ty) => {
-                #[derive(Debug, Default)]
-                pub struct $name(Cell<$t>);
+                /// The tag byte keeps the initial bytes of a zero-initialised static of this type different
+                /// from any all-zero constant allocation (see `canary`).
+                #[derive(Debug)]
+                pub struct $name(Cell<$t>, u8);
                 unsafe impl Sync for $name {}
+                impl Default for $name {
+                    fn default() -> Self {
+                        Self::new(Default::default())
+                    }
+                }
                 impl $name {
                     pub const fn new(v: $t) -> Self {
-                        Self(Cell::new(v))
+                        Self(Cell::new(v), 0xA5)
                     }
                     pub fn load(&self, _: Ordering) -> $t {
                         verif_rt::yield_point(SITE);
